@@ -70,10 +70,23 @@ def rand_design(rng, profile='small', nops=None, nin=None, ops=None, nregs=None,
     if not consts:
         ops = [o for o in ops if o not in ('const', 'constop')]
 
+    reserved = ['always', 'wire', 'reg', 'module', 'begin', 'end', 'signed', 'output', 'input', 'assign', 'integer', 'xor']
+    used_names = set()
+
     def nm(base):
-        if name_style == 'plain':
+        if name_style == 'plain' or rng.random() < 0.6:
             return base
-        return base
+        k = rng.randrange(12 if name_style == 'verilog' else 15)
+        cand = [base + ' x', base + '[0]', '9' + base, None, base + '$', '$' + base, 'L' * 1025 + base,
+                '\u00e9' + base, base + '.q', base + '-1', base + '__', 'Tmp' + base,
+                '_ver_out_tmp_%d' % rng.randrange(3), 'tb_iter', 'block'][k]
+        if cand is None:
+            free = [r for r in reserved if r not in used_names]
+            cand = rng.choice(free) if free else base
+        if cand in used_names:
+            return base
+        used_names.add(cand)
+        return cand
 
     ins = [Input(rng.choice(widths), nm('i%d' % k)) for k in range(nin)]
     d.inputs = ins
@@ -278,6 +291,15 @@ def rand_design(rng, profile='small', nops=None, nin=None, ops=None, nregs=None,
         o = Output(len(pool[-1]), nm('olast'))
         o <<= pool[-1]
         d.outputs.append(o)
+    if name_style != 'plain':
+        k = 0
+        for w in pool[nin:]:
+            if isinstance(w, (Input, Output, Register, Const)) or rng.random() < 0.8:
+                continue
+            new = nm('w%d' % k)
+            k += 1
+            if new not in working_block().wirevector_by_name:
+                w.name = new
     # every input must be connected to something (sanity_check tolerates unconnected Inputs)
     d.block = working_block()
     return d
